@@ -131,8 +131,15 @@ func c03Profile(variant string) func(c *sim.RunCtx) {
 			}
 		} else {
 			seen := map[int]bool{}
-			for len(ks) < maxPoints {
+			for i := 0; i < 2*maxPoints && len(ks) < maxPoints; i++ {
 				k := 1 + orig.Crash.Choose(K)
+				if !seen[k] {
+					seen[k] = true
+					ks = append(ks, k)
+				}
+			}
+			for i := 0; i < maxPoints && len(ks) < maxPoints; i++ {
+				k := 1 + (i*K)/maxPoints
 				if !seen[k] {
 					seen[k] = true
 					ks = append(ks, k)
